@@ -77,6 +77,10 @@ type c12RunCase struct {
 	OnPC    []uint32    `json:"on_pc"` // addresses with a registered OnPC callback
 	Logger  bool        `json:"logger"`
 	Reset   bool        `json:"reset"` // after the run: Reset() and one more step
+	// Warm: before the judged run, RunUntil(target, 1) executes one instruction with as many callbacks registered
+	// (at the judged addresses moved to the neighbouring bank) as the judged run will have; the callback map object
+	// is then changed in place to the judged addresses
+	Warm bool `json:"warm,omitempty"`
 }
 
 var (
@@ -93,19 +97,29 @@ func c12System() (*emulator.System, *rig.Primary) {
 	return sysObj, sysCPU
 }
 
+// countWriter is a trace sink that counts complete lines however the text is chunked into Write calls.
 type countWriter struct {
-	n       int
-	lines   [][]byte
-	onWrite func()
+	n       int      // complete lines
+	calls   int      // Write calls
+	lines   [][]byte // the first 300 lines (with their newline)
+	pending []byte
+	onWrite func() // called when a new line begins
 }
 
 func (w *countWriter) Write(p []byte) (int, error) {
-	w.n++
-	if w.onWrite != nil {
-		w.onWrite()
-	}
-	if len(w.lines) < 300 {
-		w.lines = append(w.lines, append([]byte(nil), p...))
+	w.calls++
+	for _, b := range p {
+		if len(w.pending) == 0 && w.onWrite != nil {
+			w.onWrite()
+		}
+		w.pending = append(w.pending, b)
+		if b == '\n' {
+			w.n++
+			if len(w.lines) < 300 {
+				w.lines = append(w.lines, w.pending)
+			}
+			w.pending = nil
+		}
 	}
 	return len(p), nil
 }
@@ -134,6 +148,19 @@ func c12RunCheck(c c12RunCase) error {
 	var wantWDM []byte // operand bytes of the WDM instructions the specification loop executes (read from memory, not from the CPU)
 	var cycles uint64
 	executed := 0
+	wantWarm := map[uint32]int{}
+	if c.Warm && pcOf(twin.Raw()) != c.Target {
+		at := pcOf(twin.Raw())
+		for _, a := range c.OnPC {
+			if a^0x010000 == at {
+				wantWarm[at]++
+				break
+			}
+		}
+		if n, _, p := twin.Step(); p != nil || n < 1 {
+			return fmt.Errorf("twin warm-up step at $%06X: %d cycles, %v", at, n, p)
+		}
+	}
 	for cycles < c.Max && pcOf(twin.Raw()) != c.Target {
 		at := pcOf(twin.Raw())
 		if isOnPC[at] {
@@ -167,6 +194,27 @@ func c12RunCheck(c c12RunCase) error {
 	gotCalls := map[uint32]int{}
 	var cbErr, cbOrderErr error
 	sys.CPU.OnPC = map[uint32]func(){}
+	if c.Warm {
+		gotWarm := map[uint32]int{}
+		for _, a := range c.OnPC {
+			w := a ^ 0x010000
+			sys.CPU.OnPC[w] = func() { gotWarm[w]++ }
+		}
+		sys.Logger = nil
+		if p := rig.Safe(func() error { sys.RunUntil(c.Target, 1); return nil }); p != nil {
+			return fmt.Errorf("warm-up RunUntil($%06X, 1) panicked: %v", c.Target, p)
+		}
+		for w, n := range wantWarm {
+			if gotWarm[w] != n {
+				return fmt.Errorf("warm-up: OnPC callback of $%06X ran %d times, %d instructions were fetched there", w, gotWarm[w], n)
+			}
+		}
+		// the same map object now gets the judged addresses
+		for k := range sys.CPU.OnPC {
+			delete(sys.CPU.OnPC, k)
+		}
+		ms.Log = ms.Log[:0]
+	}
 	ms.DoLog = true
 	for _, a := range c.OnPC {
 		a := a
@@ -214,7 +262,8 @@ func c12RunCheck(c c12RunCase) error {
 	if cbErr != nil {
 		return cbErr
 	}
-	if cbOrderErr != nil && (c.Logger || executed <= 1) {
+	if cbOrderErr != nil && (c.Logger && lw.calls == lw.n || executed <= 1) {
+		// (the access log restarts with every trace line only if the lines arrive one Write at a time, as they are produced)
 		// without a logger the access log is only known to be empty at the first step
 		return cbOrderErr
 	}
@@ -236,8 +285,9 @@ func c12RunCheck(c c12RunCase) error {
 	if string(gotWDM) != string(wantWDM) {
 		return fmt.Errorf("OnWDM received % x, the executed WDM operands were % x", gotWDM, wantWDM)
 	}
-	if c.Logger && lw.n != wantLogs {
-		return fmt.Errorf("Logger.Write was called %d times, want %d (%d executed instructions, ended at target inside budget: %v)", lw.n, wantLogs, executed, wantLogs > executed)
+	// one trace line per executed instruction; the instruction found at the target (looked at, not executed) may be listed too
+	if c.Logger && c.Max > 0 && (lw.n < executed || lw.n > wantLogs) {
+		return fmt.Errorf("the Logger received %d lines, want %d..%d (%d executed instructions, ended at target inside budget: %v)", lw.n, executed, wantLogs, executed, wantLogs > executed)
 	}
 	// part C on the alternative interpreter: OnWDM gets exactly the operand of every WDM it executes
 	{
@@ -483,6 +533,10 @@ func TestC12(t *testing.T) {
 				}
 				c.Logger = d.Intn("logger", 2) == 0
 				c.Reset = d.Intn("reset", 3) == 0
+				if d.Intn("warm", 4) == 0 {
+					c.Warm = true
+					ev.Class("B/one-instruction-run-first-then-callback-map-changed-in-place")
+				}
 				r.Check(t, "run", c, func() error { return c12RunCheck(c) })
 				nt := c.Max <= cyc || ti >= 0
 				if nt {
